@@ -86,6 +86,40 @@ def memory_pool():
     return out
 
 
+def spill_pool():
+    src = open(f"{REPO}/datafusion/physical-plan/src/spill/spill_pool.rs").read()
+    src = strip_test_modules(src)
+    src = sub(src, "use parking_lot::Mutex;\n", "use parking_lot::Mutex; // = loomx shim over loom::sync::Mutex\n", 1,
+              "spill_pool parking_lot import")
+    src = sub(src, "use super::in_progress_spill_file::InProgressSpillFile;\n",
+              "use crate::spill_env::InProgressSpillFile; // in-memory, fault-injecting stand-in (same method signatures)\n", 1,
+              "spill_pool InProgressSpillFile import")
+    src = sub(src, "use super::spill_manager::SpillManager;\n",
+              "use crate::spill_env::SpillManager; // in-memory, fault-injecting stand-in (same method signatures)\n", 1,
+              "spill_pool SpillManager import")
+    if "std::sync::atomic" in src or "std::sync::Mutex" in src or "std::sync::RwLock" in src:
+        raise Fail("spill_pool: unexpected std synchronisation primitive")
+    return {"spill_pool.rs": src}
+
+
+def dynamic_filters():
+    base = f"{REPO}/datafusion/physical-expr/src/expressions/dynamic_filters"
+    out = {}
+    src = strip_test_modules(open(f"{base}/mod.rs").read())
+    # parking_lot::RwLock resolves to the loomx shim through cargo's dependency renaming (no text change);
+    # `crate::PhysicalExpr` resolves to the re-export at the root of the loomx crate.
+    sub(src, "use parking_lot::RwLock;\n", "", 1, "dynamic_filters parking_lot import")
+    sub(src, "use crate::PhysicalExpr;\n", "", 1, "dynamic_filters crate::PhysicalExpr import")
+    # the only atomic is the process-wide expression-id source (a `static`, const-initialised): stays on std
+    sub(src, "use std::sync::atomic::{AtomicU64, Ordering};\n", "", 1, "dynamic_filters atomic import")
+    if src.count("AtomicU64") != 3:
+        raise Fail(f"dynamic_filters: AtomicU64 is used in {src.count('AtomicU64')} places, expected 3 (import + id counter only)")
+    out["dynamic_filters/mod.rs"] = src
+    src = strip_test_modules(open(f"{base}/tracker.rs").read())
+    out["dynamic_filters/tracker.rs"] = src
+    return out
+
+
 def main():
     os.makedirs(GEN, exist_ok=True)
     files = {}
@@ -104,7 +138,7 @@ def main():
     print(f"sync_sources: {len(files)} file(s) in {GEN}")
 
 
-GENERATORS = [distributor_channels, memory_pool]
+GENERATORS = [distributor_channels, memory_pool, spill_pool, dynamic_filters]
 
 if __name__ == "__main__":
     main()
